@@ -51,10 +51,11 @@ type deferEntry struct {
 }
 
 type Item struct {
-	G   T
-	F   *Frame
-	Gor *Gor
-	Op  *VisOp // non-nil when suspended at a visible operation
+	G     T
+	F     *Frame
+	Gor   *Gor
+	Op    *VisOp // non-nil when suspended at a visible operation
+	Clock int    // number of moves this goroutine has made along this path (local logical time)
 }
 
 type Machine struct {
@@ -103,12 +104,22 @@ type Machine struct {
 	StepLog                          []StepInfo
 	NoPrune                          bool
 	NTrivial, NAsserts               int
+	Trace2                           bool
+	holdDepth                        int
+	SymFrom, SymTo                   int    // steps [SymFrom,SymTo) choose the move by a solver variable, the others follow Policy
+	Policy                           string // baseline scheduling policy
+	Progress                         func(step, enumerated, live, alts, gors int)
 	textIDs                          map[string]int64
 	rangeStates                      map[*Object]*rangeState
 	errCount                         int
 	lastNow                          T
 	ghostLog                         []ghostRec
 	inputNames                       map[string]int
+	cur                              *Item
+	curSeq                           int
+	anon                             int
+	canon                            map[string]*Object
+	eventIDs                         map[string]int
 }
 
 type InputVar struct {
@@ -128,7 +139,7 @@ func NewMachine(prog *ssa.Program, intMode bool) *Machine {
 		fnInfos: map[*ssa.Function]*FnInfo{}, globals: map[*ssa.Global]*Object{}, synthG: map[string]Value{},
 		initDone: map[*ssa.Package]bool{}, Intrinsics: map[string]Intrinsic{}, ExecReal: map[string]bool{},
 		FuncsSeen: map[string]bool{}, Stubs: map[string]bool{}, Assumptions: map[string]bool{}, SliceCap: 8, ChanSlots: 3,
-		ghost: map[string]Value{}, spawned: map[string]*Gor{}, MaxSteps: 64, rangeStates: map[*Object]*rangeState{}}
+		ghost: map[string]Value{}, spawned: map[string]*Gor{}, MaxSteps: 64, rangeStates: map[*Object]*rangeState{}, canon: map[string]*Object{}, eventIDs: map[string]int{}}
 	m.heap = NewHeap(nil)
 	registerIntrinsics(m)
 	return m
@@ -224,7 +235,7 @@ func (m *Machine) wlAdd(wl *worklist, it *Item) {
 	if it.G.IsFalse() {
 		return
 	}
-	k := keyString(it.F.keyWithGor(it.Gor.ID))
+	k := keyString(append([]int32{int32(it.Gor.ID), int32(it.Clock)}, it.F.key()...))
 	if old, ok := wl.items[k]; ok {
 		wl.items[k] = m.mergeItems(old, it)
 		m.NMerges++
@@ -307,7 +318,7 @@ func (m *Machine) mergeFrames(sel T, a, b *Frame) *Frame {
 
 func (m *Machine) mergeItems(a, b *Item) *Item {
 	g := m.C.Or(a.G, b.G)
-	return &Item{G: g, F: m.mergeFrames(a.G, a.F, b.F), Gor: a.Gor}
+	return &Item{G: g, F: m.mergeFrames(a.G, a.F, b.F), Gor: a.Gor, Clock: a.Clock}
 }
 
 // ---- register access
@@ -473,7 +484,7 @@ func (m *Machine) transfer(wl *worklist, it *Item, to *ssa.BasicBlock) {
 }
 
 func (m *Machine) forkItem(it *Item, g T) *Item {
-	return &Item{G: m.C.And(it.G, g), F: copyFrame(it.F), Gor: it.Gor}
+	return &Item{G: m.C.And(it.G, g), F: copyFrame(it.F), Gor: it.Gor, Clock: it.Clock}
 }
 
 // execItem runs one item until a control transfer, suspension or death.
@@ -486,6 +497,7 @@ func (m *Machine) execItem(wl *worklist, it *Item) {
 		}
 		ins := blk.Instrs[f.pc]
 		m.NInstr++
+		m.cur, m.curSeq = it, 0
 		if m.Trace {
 			fmt.Printf("  [g%d] %s: %s\n", it.Gor.ID, f.fi.Fn.Name(), ins)
 		}
@@ -826,4 +838,66 @@ func (m *Machine) SortedFuncs() []string {
 	}
 	sort.Strings(s)
 	return s
+}
+
+// eventKey identifies the current execution event canonically: (goroutine, its local clock, call stack and
+// program point with loop iterations, sequence number within the instruction). The same event reached through
+// different interleavings gets the same key, so objects, goroutines and nondeterministic values created at it
+// are shared (their guards are mutually exclusive: one valuation has one execution).
+func (m *Machine) eventKey(tag string) string {
+	it := m.cur
+	if it == nil || it.F == nil {
+		m.anon++
+		return fmt.Sprintf("anon%d|%s", m.anon, tag)
+	}
+	m.curSeq++
+	return fmt.Sprintf("%d|%d|%s|%d|%s", it.Gor.ID, it.Clock, keyString(it.F.key()), m.curSeq, tag)
+}
+
+func (m *Machine) eventID(tag string) int {
+	k := m.eventKey(tag)
+	id, ok := m.eventIDs[k]
+	if !ok {
+		id = len(m.eventIDs) + 1
+		m.eventIDs[k] = id
+	}
+	return id
+}
+
+// Fresh returns a nondeterministic value tied to the current event.
+func (m *Machine) Fresh(hint string, s sym.Sort) T {
+	return m.C.Var(fmt.Sprintf("%s@%d", hint, m.eventID(hint)), s)
+}
+
+// canonObject creates the object of the current allocation event, or re-initialises it under the current
+// guard when the same event was already executed under another (exclusive) guard.
+func (m *Machine) canonObject(proto Object, cells []Value) *Object {
+	key := m.eventKey("obj")
+	if o, ok := m.canon[key]; ok && m.cur != nil {
+		cur := m.heap.lookup(o)
+		if cur == nil {
+			m.heap.Init(o, cells)
+			return o
+		}
+		g := m.cur.G
+		own := m.heap.own(o)
+		if o.Kind == KMap {
+			for e := 0; e < len(own)/3; e++ {
+				own[3*e] = m.C.And(own[3*e].(T), m.C.Not(g))
+			}
+			return o
+		}
+		for j := 0; j < len(own) && j < len(cells); j++ {
+			own[j] = m.Merge(g, cells[j], own[j])
+		}
+		return o
+	}
+	m.nextObj++
+	o := new(Object)
+	*o = proto
+	o.ID = m.nextObj
+	m.heap.Init(o, cells)
+	m.canon[key] = o
+	m.NObjects++
+	return o
 }
